@@ -234,3 +234,20 @@ reg(
     "A crash leaves a prefix of the single cache file (no torn sectors inside it); codegen artefacts are not "
     "crash-enumerated; one model.",
 )
+
+reg(
+    "C26",
+    "E4-enum",
+    "exploration",
+    "full product of command lines over a fixture tree through tools.compiler.main, reference counting function + library-API oracle per model",
+    "Every invocation in the product of PATH subsets (size <= 2 quick / all 127 thorough) of {two good files, two files "
+    "with a syntax error, a missing path, an empty directory, a directory holding the good files} x -m sequences of "
+    "length 0..2 (3 thorough) over {two valid models, a class that fails to flatten, an unknown class} x -t {none, sympy, "
+    "casadi} x -o {directory, missing, a file} x -O {none, a=b, malformed} is run through the real tools.compiler.main in "
+    "process; the return value / SystemExit code must equal the reference count (argparse errors => 2; else usage "
+    "errors; else 1 for no files or the number of files with syntax errors; else one per requested model that fails "
+    "when the same request is made alone through the library API on fresh state).",
+    "One fixture tree; quick varies -o / -O only on single-path, <= 1 model invocations (usage errors short-circuit "
+    "everything else in main); log text is not compared; in-process main(), so interpreter start-up and the console "
+    "script wrapper are not covered.",
+)
